@@ -110,11 +110,43 @@ pub fn worker(ctx: &mut WorkerCtx) {
         }
         base += 1;
     }
+    // wide values as loop conditions: divergence must not depend on the low bits only
+    for c in wide_divergent() {
+        if ctx.owns(base) {
+            work.push((base, c));
+        }
+        base += 1;
+    }
     let mut silent_done = 0u64;
     for (idx, code) in work {
         ctx.mark(idx, 0, &code);
         judge_program(ctx, &p, &code, &mut silent_done);
     }
+}
+
+pub fn wide_divergent() -> Vec<Vec<u8>> {
+    let mut v = Vec::new();
+    for k in [2usize, 4, 6, 8, 9, 12, 15, 16] {
+        let mut shl = Vec::new();
+        for r in 0..k {
+            if r % 2 == 0 {
+                shl.extend_from_slice(b"[>++++++++++++++++<-]>");
+            } else {
+                shl.extend_from_slice(b"[<++++++++++++++++>-]<");
+            }
+        }
+        for tail in [&b"[]"[..], b"+.-[.]", b"[>>+.-<<]", b"[[-]>>+<<]>>-[]"] {
+            let mut p = b",".to_vec();
+            p.extend_from_slice(&shl);
+            p.extend_from_slice(tail);
+            v.push(p);
+        }
+    }
+    v
+}
+
+fn is_wide(code: &[u8]) -> bool {
+    code.starts_with(b",[>++++++++++++++++<-]>")
 }
 
 pub fn replay_program(ctx: &mut WorkerCtx, code: &[u8]) {
@@ -129,7 +161,13 @@ fn judge_program(ctx: &mut WorkerCtx, p: &Plan, code: &[u8], silent_done: &mut u
         ctx.count("programs", 1);
         let text = std::str::from_utf8(&code).unwrap();
         for &w in &p.widths {
-            let runs = diff::explore_env(&code, w, p.depth, p.step_cap, true);
+            let wide = is_wide(&code);
+            let runs = if wide {
+                // the shift loops are closed in one step by the accelerated reference (validated in C04)
+                [1u8, 2, 128, 255, 0].iter().map(|&a| (vec![a], refbf::run_opt(&code, w, &[a], p.step_cap, true, true))).collect()
+            } else {
+                diff::explore_env(&code, w, p.depth, p.step_cap, true)
+            };
             ctx.count("env_nodes", runs.len() as u64);
             let n_cycle = runs.iter().filter(|(_, c)| c.verdict == Verdict::Cycle).count();
             let n_unknown = runs.iter().filter(|(_, c)| c.verdict == Verdict::Unknown).count();
@@ -142,6 +180,9 @@ fn judge_program(ctx: &mut WorkerCtx, p: &Plan, code: &[u8], silent_done: &mut u
             }
             for backend in Backend::ALL {
                 for level in levels(backend) {
+                    if wide && (level == 0 || backend == Backend::Inplace) {
+                        continue;
+                    }
                     ctx.beat((backend as u64) << 40 | (w.bits() as u64) << 32 | level as u64);
                     let Ok(comp) = compile(backend, w, level, text) else {
                         ctx.count("create_failed", 1);
@@ -206,14 +247,14 @@ fn judge_cycle(
         detail,
     };
     // observation 1: budget ladder
-    let b0 = (4 * canon.steps + 64) as usize;
+    let b0 = diff::screen_budget(canon).min(p.ladder_top);
     let mut rungs = vec![0usize, 1, 2, 5, 13, 34, 89];
     let mut x = b0;
     while x < p.ladder_top {
         rungs.push(x);
         x *= 16;
     }
-    rungs.push(p.ladder_top.max(b0));
+    rungs.push(p.ladder_top);
     rungs.sort();
     rungs.dedup();
     let mut last_len = 0usize;
@@ -266,7 +307,7 @@ fn judge_cycle(
             let envr = hshim::env::Env::new(script, cap);
             envr.borrow_mut().fail_at = Some(n);
             envr.borrow_mut().out_fail = OutFail::Err;
-            let budget = (4 * canon.steps as usize + 64) * (3 + n / canon.cyc.max(1));
+            let budget = diff::screen_budget(canon).saturating_mul(3 + n / canon.cyc.max(1)).min(1 << 24);
             let r = comp.run(Mode::Limited(budget), &envr, true, true, Arm::default());
             let log = std::mem::take(&mut envr.borrow_mut().log);
             let ok_screen = r.panicked.is_none() && log == expected;
